@@ -7,7 +7,8 @@ PROPERTY_GROUPS = {
     'C06': ['rep', 'timing', 'dt', 'load', 'httprange'],
     'C08': ['timing'],
     'C09': ['timing', 'rep', 'dt'],
-    'C11': ['playready', 'mp4'],
+    'C10': ['drm', 'mp4'],
+    'C11': ['playready', 'mp4', 'drm'],
     'C12': ['mps'],
     'C13': ['httprange'],
     'C14': ['events', 'scte35', 'mp4'],
